@@ -3010,7 +3010,15 @@ class BaseInterpreter(Generic[TContext, TEvent]):
                     delay_ms,
                 )
                 continue
+            # ⏲️ One timer per delay, not per candidate: every transition of a
+            #    candidate list shares the event `after.<delay>.<state>`, and
+            #    one delivery selects among them. A timer per candidate sent
+            #    that event N times, so a targetless winner ran N times.
+            armed: Set[str] = set()
             for t_def in transitions:
+                if t_def.event in armed:
+                    continue
+                armed.add(t_def.event)
                 delay_sec = float(resolved_ms) / 1000.0
                 after_event = AfterEvent(type=t_def.event)
                 self._after_timer(delay_sec, after_event, owner_id=state.id)
